@@ -128,7 +128,7 @@ func closuresByBranch(fn *ssa.Function, predName string) map[bool]*ssa.Function 
 func c05() []*Ob {
 	return []*Ob{
 		{Prop: "C05", ID: "C05.12", Engine: "WHO-MAY-WRITE(request fields)", Floor: 1,
-			Desc:  "every fraction is asked the same question: between the iterations of Searcher.SearchDocs the only field of the request that is assigned is Limit (justified by calcEnsuredIDsCount); From, To, the query, the order and the aggregations are those of the caller for every fraction — a time range narrowed to the ids found so far drops documents of later fractions that share the last id's millisecond, only when the fractions are searched in more than one iteration",
+			Desc:  "every fraction is asked the same question: between the iterations of Searcher.SearchDocs the only fields of the request that are assigned are Limit (justified by calcEnsuredIDsCount) and From / To when they are cut at a timestamp as it is (inclusive, no +1 / -1 in the derivation of the new bound, also through a helper); the query, the order and the aggregations are those of the caller for every fraction — a time range narrowed past the millisecond of the last id found drops documents of later fractions that share the last id's millisecond, only when the fractions are searched in more than one iteration",
 			Check: func(c *Ctx) { sameQuestionForEveryFraction(c) }},
 		{Prop: "C05", ID: "C05.11", Engine: "SHAPE(accumulation)", Floor: 3,
 			Desc:  "the split over fractions and shards does not change the counters of a group: SamplesContainer.Merge adds the operand's counters to its own on every path (shared rule with C06.11) — a copy instead of an addition makes the not-exists count of a group depend on which fraction is merged first",
